@@ -317,7 +317,7 @@ Fixpoint full_view (fuel : nat) (w : world) (cur : bytes) (n : node) {struct fue
   end.
 
 (* =====================================================================================================================
-   cgnsdiff (tools/cgnsdiff.c): options -c -i -d -f (-q sets a variable nobody reads; -t: compare_doubles below),
+   cgnsdiff (tools/cgnsdiff.c): options -c -i -d -f -t (-q sets a variable nobody reads),
    whole-file mode (recurse = 1) and dataset mode with / without -r
    ===================================================================================================================== *)
 Inductive dline :=
@@ -346,8 +346,67 @@ Definition diff_type_size (dt : bytes) : Z :=
 Definition diff_data_size (dt : bytes) (dims : list Z) : Z :=
   if is_nil dims then 0 else diff_type_size dt * fold_left Z.mul dims 1.
 
-(* compare_data (cgnsdiff.c:133-225) on the nodes the two ids answer for; tolerance 0 => compare_bytes *)
-Definition compare_data (node_data : bool) (name1 name2 : bytes) (n1 n2 : node) : list dline :=
+(* ---- -t<tol>: compare_floats / compare_doubles (cgnsdiff.c:113-131) and the choice made in compare_data (:210-219) -----------
+   data_size sets *size = 4 for R4 and X4, 8 for R8 and X8, 0 for every other type.  With tol > 0.0 and *size != 0 the
+   data are compared numerically, element by element: as (bytes >> 2) floats when *size == 4 -- so the two components of an
+   X4 value are two floats --, as (bytes >> 3) doubles otherwise; "fabs (d1[n] - d2[n]) > tol" with the subtraction in the
+   element's own format (binary32 for floats, then widened exactly) and tol a double (atof).  Integers, characters and a
+   tolerance that is not > 0 (0, negative, NaN): compare_bytes.  IEEE arithmetic through Flocq. *)
+From Flocq Require Import Core.Zaux Core.Raux IEEE754.BinarySingleNaN IEEE754.Binary IEEE754.Bits.
+Definition Hp64 : FLX.Prec_gt_0 53 := eq_refl.
+Definition Hm64 : Prec_lt_emax 53 1024 := eq_refl.
+Definition Hp32 : FLX.Prec_gt_0 24 := eq_refl.
+Definition Hm32 : Prec_lt_emax 24 128 := eq_refl.
+Definition dbl (u : Z) : BinarySingleNaN.binary_float 53 1024 := B2BSN 53 1024 (b64_of_bits u).
+Definition flt (u : Z) : BinarySingleNaN.binary_float 24 128 := B2BSN 24 128 (b32_of_bits u).
+(* (double) of a float: exact *)
+Definition widen (x : BinarySingleNaN.binary_float 24 128) : BinarySingleNaN.binary_float 53 1024 :=
+  match x with
+  | BinarySingleNaN.B754_zero s => BinarySingleNaN.B754_zero s
+  | BinarySingleNaN.B754_infinity s => BinarySingleNaN.B754_infinity s
+  | BinarySingleNaN.B754_nan => BinarySingleNaN.B754_nan
+  | BinarySingleNaN.B754_finite s mm e _ =>
+      BinarySingleNaN.binary_normalize 53 1024 Hp64 Hm64 mode_NE (cond_Zopp s (Zpos mm)) e s
+  end.
+Definition gt_tol (x : BinarySingleNaN.binary_float 53 1024) (tol : Z) : bool :=
+  match BinarySingleNaN.Bcompare (BinarySingleNaN.Babs x) (dbl tol) with Some Gt => true | _ => false end.
+(* fabs (d1[n] - d2[n]) > tol   on the bit patterns of two doubles / two floats and of the double tol *)
+Definition exceeds_tol64 (d1 d2 tol : Z) : bool :=
+  gt_tol (@BinarySingleNaN.Bminus 53 1024 Hp64 Hm64 mode_NE (dbl d1) (dbl d2)) tol.
+Definition exceeds_tol32 (d1 d2 tol : Z) : bool :=
+  gt_tol (widen (@BinarySingleNaN.Bminus 24 128 Hp32 Hm32 mode_NE (flt d1) (flt d2))) tol.
+(* for (n = 0; n < cnt; n++) if (fabs(d1[n] - d2[n]) > tol) return 1;  return 0; *)
+Fixpoint compare_doubles (tol : Z) (d1 d2 : list Z) : bool :=
+  match d1, d2 with
+  | x :: r1, y :: r2 => if exceeds_tol64 x y tol then true else compare_doubles tol r1 r2
+  | _, _ => false
+  end.
+Fixpoint compare_floats (tol : Z) (d1 d2 : list Z) : bool :=
+  match d1, d2 with
+  | x :: r1, y :: r2 => if exceeds_tol32 x y tol then true else compare_floats tol r1 r2
+  | _, _ => false
+  end.
+(* tol > 0.0 *)
+Definition tol_active (tol : Z) : bool :=
+  match BinarySingleNaN.Bcompare (dbl tol) (BinarySingleNaN.B754_zero false) with Some Gt => true | _ => false end.
+(* *size of data_size *)
+Definition diff_num_size (dt : bytes) : Z :=
+  match dt with
+  | [82; 52] | [88; 52] => 4
+  | [82; 56] | [88; 56] => 8
+  | _ => 0
+  end.
+(* the data as the (cnt) little-endian values of n bytes each that the C code indexes; a trailing partial value is not looked at *)
+Fixpoint le_val (bs : bytes) : Z := match bs with [] => 0 | b :: r => b + 256 * le_val r end.
+Fixpoint groups (n : nat) (fuel : nat) (l : bytes) : list Z :=
+  match fuel with
+  | O => []
+  | S f => let g := firstn n l in if (length g <? n)%nat then [] else le_val g :: groups n f (skipn n l)
+  end.
+Definition values (n : nat) (l : bytes) : list Z := groups n (length l) l.
+
+(* compare_data (cgnsdiff.c:133-225) on the nodes the two ids answer for *)
+Definition compare_data (node_data : bool) (tol : Z) (name1 name2 : bytes) (n1 n2 : node) : list dline :=
   match n1, n2 with
   | Node _ l1 t1 d1 da1 _, Node _ l2 t2 d2 da2 _ =>
       if negb (bytes_eqb l1 l2) then [DLabel name1 name2]
@@ -357,7 +416,13 @@ Definition compare_data (node_data : bool) (name1 name2 : bytes) (n1 n2 : node) 
       else if negb node_data || is_nil d1 then []
       else let b := diff_data_size t1 d1 in
            if 0 <? b then
-             if bytes_eqb (firstn (Z.to_nat b) da1) (firstn (Z.to_nat b) da2) then [] else [DData name1 name2]
+             let a1 := firstn (Z.to_nat b) da1 in
+             let a2 := firstn (Z.to_nat b) da2 in
+             let err := if tol_active tol && negb (diff_num_size t1 =? 0)
+                        then (if diff_num_size t1 =? 4 then compare_floats tol (values 4 a1) (values 4 a2)
+                              else compare_doubles tol (values 8 a1) (values 8 a2))
+                        else negb (bytes_eqb a1 a2) in
+             if err then [DData name1 name2] else []
            else []
   | _, _ => [DErrExit]
   end.
@@ -386,7 +451,8 @@ Record dopts := mkO { d_data : bool;       (* -d *)
                       d_follow : bool;     (* -f *)
                       d_case : bool;       (* -c *)
                       d_space : bool;      (* -i *)
-                      d_recurse : bool }.  (* -r, or no dataset arguments *)
+                      d_recurse : bool;    (* -r, or no dataset arguments *)
+                      d_tol : Z }.         (* -t<tol>: the bits of the double atof gives; 0 = the default 0.0 *)
 (* sort_children (the qsort comparator) and find_name each call copy_name on what they compare: TWO uses of the
    normalisation that must agree -- bisection over a list is only correct when the list is sorted by the key the
    search compares (KeysAgree in CopyProofs.v is that obligation) *)
@@ -503,7 +569,7 @@ Fixpoint compare_nodes (fuel : nat) (name1 : bytes) (cf1 : bytes) (n1 : node)
       | Some (f1, r1), Some (f2, r2) =>
           (* since 39f8525: if (strcmp (name1, "/") || strcmp (name2, "/")) compare_data (...) *)
           let out := if (match v with Cur => true | Old => false end) && bytes_eqb name1 [47] && bytes_eqb name2 [47]
-                     then [] else compare_data (d_data o) name1 name2 r1 r2 in
+                     then [] else compare_data (d_data o) (d_tol o) name1 name2 r1 r2 in
           if negb (d_recurse o) then out                                   (* if (!recurse) return; *)
           else if negb (d_follow o) && (is_link n1 || is_link n2) then out
           else
@@ -533,7 +599,7 @@ Definition cgnsdiff (fuel : nat) (file1 file2 : bytes) : list dline :=
   | _, _ => [DErrExit]
   end.
 End Diff.
-Definition whole (o : dopts) : dopts := mkO (d_data o) (d_follow o) (d_case o) (d_space o) true.
+Definition whole (o : dopts) : dopts := mkO (d_data o) (d_follow o) (d_case o) (d_space o) true (d_tol o).
 
 (* main with dataset arguments: cgio_get_node_id (root, ds) on both files (err_exit when absent), then
    compare_nodes (ds1, node1, ds2, node2) with recurse as given by -r.  [walk_path] resolves a path of names. *)
@@ -641,23 +707,4 @@ Fixpoint paths_fit (prefix : Z) (n : node) : bool :=
       forallb (fun k => (prefix + 1 + lenZ (node_name k) + 1 <=? 1024) &&
                         paths_fit (prefix + 1 + lenZ (node_name k)) k) ks
   | LinkNode _ _ _ => true
-  end.
-
-(* ---- cgnsdiff -t<tol> (outside the default options): compare_doubles, cgnsdiff.c:123-131 -------------------------------- *)
-From Flocq Require Import Core.Zaux Core.Raux IEEE754.BinarySingleNaN IEEE754.Binary IEEE754.Bits.
-Definition Hp64 : FLX.Prec_gt_0 53 := eq_refl.
-Definition Hm64 : Prec_lt_emax 53 1024 := eq_refl.
-Definition dbl (u : Z) : BinarySingleNaN.binary_float 53 1024 := B2BSN 53 1024 (b64_of_bits u).
-(* fabs(d1[n] - d2[n]) > tol   on the bit patterns of three doubles *)
-Definition exceeds_tol64 (d1 d2 tol : Z) : bool :=
-  match BinarySingleNaN.Bcompare
-          (BinarySingleNaN.Babs (@BinarySingleNaN.Bminus 53 1024 Hp64 Hm64 mode_NE (dbl d1) (dbl d2))) (dbl tol) with
-  | Some Gt => true
-  | _ => false
-  end.
-(* for (n = 0; n < cnt; n++) if (fabs(d1[n] - d2[n]) > tol) return 1;  return 0; *)
-Fixpoint compare_doubles (tol : Z) (d1 d2 : list Z) : bool :=
-  match d1, d2 with
-  | x :: r1, y :: r2 => if exceeds_tol64 x y tol then true else compare_doubles tol r1 r2
-  | _, _ => false
   end.
